@@ -80,10 +80,10 @@ PROPS = {
    'bounds': NET_BOUNDS + '; fixed-datum levelling and vector networks, every third (quick) / every (thorough) observation as target', 'outside': NET_OUT + '; text sections of the report; structural removals other than those arising in C20', 'assumptions': NET_ASSUME},
  'C19': {'e1': [{'harness': 'g3', 'entry_points': ['DataParser (g3-model: points with geoid, status records, vector / xyz with cov-mat, distance, hdiff, height)', 'g3::Model::update_linearization / update_adjustment (init, revision, linearization of Vector, XYZ, Distance, HeightDiff, Height)',
                                                    'g3::Point n-e-u parametrisation, x/y/z_transform, model_height', 'Adj (envelope, cholesky, gso) through g3::Model', 'Model::write_xml_adjustment_input_data -> DataParser (adj-input-data) -> Adj']}],
-   'must_reach': ['g3', 'g3-consistent'],
+   'must_reach': ['g3', 'g3-consistent', 'g3b', 'g3b-consistent'],
    'technique': 'symbolic execution of gama-g3\'s model on generated ECEF networks with symbolic observation errors; the design matrix, right-hand sides and weights are compared with those stated from the observation equations in the harness (gradient in X,Y,Z projected on the local n,e,u frame), the solution with the weighted normal equations, the exact null space (defect, redundancy), across algorithms, across record orders and through the project-equation dump',
-   'bounds': 'networks of 4 points on the equator at longitudes 0/90/180/270 deg (the north-east-up rotation has entries 0/+-1 there and the ellipsoidal height is the radius minus the semi-major axis, so the linearisation is exact), heights 10..40 m, geoid heights 0.5..2 m; (a) 5-6 GNSS vectors with full 3x3 covariances, status patterns faaa/fafa/cccc (thorough: + acca, ffaa); (b) mixed: 4 vectors, 1-2 observed XYZ with covariances, 4 space distances (coefficients with square roots), 3 height differences, 2 heights, patterns faaa/ffaa (thorough: + faca); symbolic errors |e| <= 1 cm on every component; algorithms envelope, cholesky, gso',
-   'outside': 'points elsewhere on the ellipsoid (rotation entries are sines/cosines of latitude and longitude: transcendental, limit L4); angles, azimuths and zenith angles of gama-g3; the SVD algorithm inside g3; the ellipsoidal part of the result XML (xyz2blh iteration forks on symbolic coordinates: no verdict in 3 min) - adjusted X,Y,Z are taken by the first three statements of Point::write_xml replicated in the harness; the dump compared to 1e-6 mm when coefficients are irrational (written with 16 digits); src/gama-g3.cpp option handling',
+   'bounds': 'networks of 4 points on the equator at longitudes 0/90/180/270 deg (the north-east-up rotation has entries 0/+-1 there and the ellipsoidal height is the radius minus the semi-major axis, so the linearisation is exact), heights 10..40 m, geoid heights 0.5..2 m; (a) 5-6 GNSS vectors with full 3x3 covariances, status patterns faaa/fafa/cccc (thorough: + acca, ffaa); (b) mixed: 4 vectors, 1-2 observed XYZ with covariances, 4 space distances (coefficients with square roots), 3 height differences, 2 heights, patterns faaa/ffaa (thorough: + faca); symbolic errors |e| <= 1 cm on every component; algorithms envelope, cholesky, gso; (c) general position: 4 points given as B,L,H at latitudes 0/+-45 deg and longitudes 0/45/90/135 deg (sine and cosine are atoms, the radius of curvature a radical), 3 vectors, 1 observed XYZ, 3 distances with instrument / target heights, a height difference, a height: X,Y,Z from B,L,H, every coefficient and right-hand side against the stated equations (symbolic errors), zero corrections and residuals for error-free observations',
+   'outside': 'points at latitudes / longitudes whose sine and cosine are not expressible (limit L4); at general position the solution with symbolic errors (no normal form over sin/cos/sqrt atoms; z3 unknown on the normal equations after 260 s) and points given by X,Y,Z (xyz2blh iteration); angles, azimuths and zenith angles of gama-g3; the SVD algorithm inside g3; the ellipsoidal part of the result XML (xyz2blh iteration forks on symbolic coordinates: no verdict in 3 min) - adjusted X,Y,Z are taken by the first three statements of Point::write_xml replicated in the harness; the dump compared to 1e-6 mm when coefficients are irrational (written with 16 digits); src/gama-g3.cpp option handling',
    'claim': 'Partial claim: networks at the special geometry where the model is exact, with vectors, observed coordinates, distances, height differences and heights. There the equations equal the stated ones, the adjusted coordinates reproduce the generating ones for consistent observations, satisfy the weighted normal equations for symbolic errors, agree between the three algorithms and between record orders, redundancy/defect equal the exact values, and the project-equation dump adjusted by Adj gives the same unknowns.',
    'assumptions': ['exact real arithmetic stands for IEEE double', 'private members of g3::Model/g3::Point are read by the harness (#define private public on the g3 headers in the harness TU only)', 'observed values are perturbed after parsing through set_dxyz / set_xyz / Value::set',
                    'atan2/sin/cos contract of the symbolic engine at multiples of pi/2', 'oracles (rational inverse, null space, closed-form gradients) in the harness are trusted']},
